@@ -62,6 +62,13 @@ CRASH_CANDIDATES = [
     "clr\nadd @L+4, 13(r2)\nL:\n",
     ".blkb 1/0\n.even\n",
     ".ascii <x>\nx = 400\n",
+    # internal errors raised inside operand encoding of offset instructions (the operand stubs are
+    # module-level singletons, one per mnemonic: nothing they remember may survive the crash)
+    "x:\tnop\n\tbr\tx+'a\n",
+    "x:\tnop\n\tbne\tx+'a\n",
+    "x:\tnop\n\tsob\tr0, x+'a\n",
+    "x:\tnop\n\tbeq\tx-'b\n\tbr x\n",
+    "x:\tnop\n\tbcc\tx+'a\n",
 ]
 
 PROBES = [
@@ -75,6 +82,8 @@ PROBES = [
     ("critical", "mov r0,,r1\n"),
     ("reg", "mov (%a)+, r0\na = 3\n"),
     ("end", "nop\n.end\ngarbage ,,,\n"),
+    # complex offsets whose first number is read as a local label (per-mnemonic operand stubs)
+    ("offset-fixup", "s: nop\n1: nop\n nop\n sob r0, 1+2\n br 1+2\n bne 1+4\n beq 1+2\n bcc 1+2\n"),
     # paths that merely look like device names, used from a source outside the working directory
     ("devlike", "nop\nmake_raw \"~dump\"\nmake_bin \"~tmp\"\nmake_raw \"~dump x\"\n", "src/pdev.mac"),
 ]
